@@ -328,7 +328,7 @@ func (vr *variableResolver) resolve(ctx *ExecutionContext) (*Value, error) {
 					// Calling a field or key
 					switch current.Kind() {
 					case reflect.Struct:
-						current = current.FieldByName(part.s)
+						current = structFieldByName(current, part.s)
 					case reflect.Map:
 						key := reflect.ValueOf(part.s)
 						if !key.Type().AssignableTo(current.Type().Key()) {
@@ -362,7 +362,7 @@ func (vr *variableResolver) resolve(ctx *ExecutionContext) (*Value, error) {
 						if err != nil {
 							return nil, err
 						}
-						current = current.FieldByName(sv.String())
+						current = structFieldByName(current, sv.String())
 					case reflect.Map:
 						sv, err := part.subscript.Evaluate(ctx)
 						if err != nil {
